@@ -19,6 +19,7 @@ import (
 	"net"
 	"net/http"
 	"os"
+	"runtime"
 	"strings"
 	"sync"
 	"time"
@@ -224,6 +225,12 @@ func main() {
 				last = strings.ReplaceAll(stacks[len(stacks)-1], "\n", " | ")
 			}
 			fmt.Printf("census %d %s\n", n, last)
+		case line == "heap":
+			// live heap after a collection (what the process keeps, not what it has churned through)
+			runtime.GC()
+			var ms runtime.MemStats
+			runtime.ReadMemStats(&ms)
+			fmt.Printf("heap %d\n", ms.HeapInuse)
 		case line == "quit":
 			os.Exit(0)
 		}
